@@ -1120,7 +1120,7 @@ def o6_limb(rep):
         n += 1
         s = z3.Real("sq")
         inputs = lambda m: {"d": mfloat(m, d.t), "sin_el": mfloat(m, se.t)}  # noqa: E731
-        rep.prove("tangent-cone", _tb(out) == (se.t < -s), cons + [s >= 0, s * s == 1 - (rl / d.t) * (rl / d.t)], inputs=inputs, replay=replay_limb,
+        rep.prove("tangent-cone", _tb(out) == (se.t < -s), cons + [s >= 0, s * s == 1 - (rl / d.t) * (rl / d.t)], inputs=inputs, replay=replay_limb, perturb=[se.t],
                   sample="obscured <=> sin(el) < -sqrt(1-(R_limb/d)^2)")
     if n == 0:
         rep.error("reach", "no path")
